@@ -342,6 +342,7 @@ class Lowerer:
         self.class_tu = {}      # class -> tu
         self.fn_docs = {}
         self.globals_needed = set()
+        self.globals_soft = set()
         self.dropped = []       # (function, what)
         self.edit_log = {}      # function -> {rule: count}
         self.opaque = set()
@@ -573,6 +574,11 @@ class Lowerer:
                     walk(a, n)
                     return
                 raise LowerError('%s: overloaded operator %s outside subset' % (qual, opname))
+            if k == 'MemberExpr' and n.get('name') in ('beg', 'cur', 'end') and is_stream(n['inner'][0]['type'].get('desugaredQualType', n['inner'][0]['type']['qualType'])):
+                s, e, m, _ = need_nomacro(n, 'stream seek direction')
+                ed.add(s, e, 'VSTREAM_' + n['name'].upper())
+                note('stream-seekdir')
+                return
             if k == 'MemberExpr':
                 b = n['inner'][0]
                 bb = base_strip(b)
@@ -620,6 +626,8 @@ class Lowerer:
                 else:
                     rs, re_, _, _ = rng(base)
                     arrow = callee.get('isArrow')
+                    if not arrow and kl == 'vstream' and bb.get('kind') == 'DeclRefExpr':
+                        arrow = True   # std::istream& / std::ostream& variables are struct vstream * in C
                     if arrow:
                         ed.add(cs, po + 1, [lname + '(', (rs, re_), argsep])
                     else:
@@ -671,10 +679,22 @@ class Lowerer:
                                 ar = need_nomacro(a, 'by-reference argument')
                                 ed.add(ar[0], ar[1], ['&(', (ar[0], ar[1]), ')'])
                                 note('ref-arg')
-                        for a in n['inner'][1:]:
-                            if a.get('kind') == 'CXXDefaultArgExpr':
-                                raise LowerError('%s: default argument in call of %s' % (qual, rd.get('name')))
-                            walk(a, n)
+                        args_ = n['inner'][1:]
+                        if any(a.get('kind') == 'CXXDefaultArgExpr' for a in args_):
+                            if rk != 'CXXMethodDecl':
+                                raise LowerError('%s: default argument in call of free function %s' % (qual, rd.get('name')))
+                            extra = []
+                            for i_, a in enumerate(args_):
+                                if a.get('kind') == 'CXXDefaultArgExpr':
+                                    extra.append(self.default_arg_text(kq, mn, fty, i_))
+                                    self.globals_soft.update(re.findall(r'[A-Za-z_]\w*', extra[-1]))
+                            nr = need_nomacro(n, 'call with default arguments')
+                            explicit = [a for a in args_ if a.get('kind') != 'CXXDefaultArgExpr']
+                            ed.insert(nr[1] - 1, (', ' if explicit else '') + ', '.join(extra))
+                            note('default-arg')
+                        for a in args_:
+                            if a.get('kind') != 'CXXDefaultArgExpr':
+                                walk(a, n)
                         return
             if k == 'CXXNewExpr':
                 s, e, m, _ = need_nomacro(n, 'new')
@@ -865,6 +885,21 @@ class Lowerer:
         return dict(name=name, proto=proto, text=out, file=bfile, line=line, nloops=nloops, edits=log,
                     cut=cut_note, qual=qual, cls=cls)
 
+    def default_arg_text(self, kl, mname, fty, index, kind=None):
+        """source text of the default value of parameter #index of method kl::mname with function type fty"""
+        rec = self.record(kl)
+        key = kl if kind == 'CXXConstructorDecl' else mname
+        for m_ in rec.methods.get(key, []):
+            if fty and m_['type']['qualType'] != fty:
+                continue
+            ps = [k for k in m_.get('inner', []) if k.get('kind') == 'ParmVarDecl']
+            if index < len(ps):
+                init = [c for c in ps[index].get('inner', []) if 'range' in c]
+                if init:
+                    s, e, mac, f = rng(init[-1])
+                    return src_text(f)[s:e]
+        raise LowerError('no default value found for parameter %d of %s::%s' % (index, kl, mname))
+
     def _trivial_ctor_expr(self, x):
         return x.get('kind') == 'CXXConstructExpr' and not x.get('inner')
 
@@ -931,7 +966,7 @@ def repo_macros_and_globals(tu):
     body = '\n'.join(chunks)
     consts = {}
     # static const T NAME = init;   /   const T NAME = init;   /  const T NAME[] = {...};
-    for m in re.finditer(r'(?:^|[;{}])\s*(?:static\s+)?const\s+([A-Za-z_][\w\s:]*?)\s+(\w+)\s*(\[\s*\d*\s*\])?\s*=\s*([^;]+);', body, re.S):
+    for m in re.finditer(r'(?:(?<=[;{}])|^)\s*(?:static\s+)?const\s+([A-Za-z_][\w\s:]*?)\s+(\w+)\s*(\[\s*\d*\s*\])?\s*=\s*([^;]+);', body, re.S | re.M):
         ty, name, arr, init = m.group(1), m.group(2), m.group(3), m.group(4)
         consts.setdefault(name, (strip_ns(ty.strip()), arr or '', ' '.join(init.split())))
     return macros, consts
